@@ -22,6 +22,7 @@ import (
 
 const (
 	Svc      = "svc"
+	SvcUp    = "SVC"
 	Denom    = "stake"
 	InputOK  = `{"header":{}}`
 	OutputOK = `{"header":{},"body":{}}`
